@@ -69,7 +69,7 @@ class ModelMixin:
                 if fi is not None:
                     return self.call_repo_function(fi, v, [], {}, st, line)
         if isinstance(v, tuple) and v and (isinstance(v[0], str) and v[0] == 'mapslot'):
-            return [ok(z3.Length(self.seq_of(v, st)), st)]
+            return [ok(self.list_as_array(v, st)[1], st)]
         raise EngineError(f'len of {type(v).__name__} at line {line}')
 
     def _minmax(self, fn, args, st, line):
@@ -699,27 +699,25 @@ class ModelMixin:
         return out
 
     # list held in a symbolic map: operations write through to the map
-    def _slot_set(self, slot, seq, st):
+    def _slot_set(self, slot, arr, n, st):
         h = st.obj(slot[1])
-        h.meta['vals'] = z3.Store(h.meta['vals'], slot[2], seq)
+        h.meta['vals'] = {'arr': z3.Store(h.meta['vals']['arr'], slot[2], arr), 'len': z3.Store(h.meta['vals']['len'], slot[2], n)}
 
     def m_mapslot_append(self, slot, args, kwargs, st, line):
-        cur = self.seq_of(slot, st)
-        self._slot_set(slot, z3.Concat(cur, z3.Unit(to_int_term(args[0]))), st)
+        arr, n = self.list_as_array(slot, st)
+        self._slot_set(slot, z3.Store(arr, n, to_int_term(args[0])), n + 1, st)
         return [ok(None, st)]
 
     def m_mapslot_pop(self, slot, args, kwargs, st, line):
         if args:
             raise EngineError('pop(index) on map-held list')
-        cur = self.seq_of(slot, st)
-        n = z3.Length(cur)
+        arr, n = self.list_as_array(slot, st)
         out = []
         for nonempty, s2 in self.branch(st, n > 0):
             if nonempty:
-                cur2 = self.seq_of(slot, s2)
-                last = cur2[z3.Length(cur2) - 1]
-                self._slot_set(slot, z3.SubSeq(cur2, 0, z3.Length(cur2) - 1), s2)
-                out.append(ok(last, s2))
+                arr2, n2 = self.list_as_array(slot, s2)
+                self._slot_set(slot, arr2, n2 - 1, s2)
+                out.append(ok(z3.Select(arr2, n2 - 1), s2))
             else:
                 out.append(rs(ExcV('IndexError'), s2))
         return out
@@ -874,6 +872,8 @@ class ModelMixin:
         mon = self.monitor_of(oh, lock=h.meta.get('name'))
         if mon is None:
             return
+        if mon.on_release is not None:
+            mon.on_release(self, st, owner, st.ghost.get(('mon_old', owner.oid)))
         for nm, f in mon.invariant(View(self, st), owner).items():
             self.oblige(st, f'monitor.{mon.cls.split(":")[1]}.inv.{nm}@release{line}', f, kind='monitor', line=line)
         old = st.ghost.get(('mon_old', owner.oid))
